@@ -29,7 +29,9 @@ type costFamily struct {
 	Unit2    proj.Text `json:"unit2"`    // two-phase families: prefix + unit^n + unit2^n + suffix (grow a structure, then shrink / rescan it)
 	BaseUnit proj.Text `json:"baseunit"` // base = base + baseunit^n (a long base resolved against a long reference)
 	Base     proj.Text `json:"base"`
-	Op       string    `json:"op"` // parse (default) | setters | searchparams | canon:<profile>
+	Op       string    `json:"op"`   // parse (default) | setters | searchparams | canon:<profile>
+	MaxN     int       `json:"maxn"` // allocation measure: skip repetition counts above this (0 = no limit)
+	CPUN     int       `json:"cpun"` // CPU measure: repetition count for this family (0 = the -cpu-n flag, -1 = not measured)
 }
 
 type costResult struct {
@@ -166,6 +168,9 @@ func cmdCost(args []string) int {
 		var n int
 		fmt.Sscan(nstr, &n)
 		for _, f := range fams {
+			if f.MaxN > 0 && n > f.MaxN {
+				continue
+			}
 			op := f.Op
 			if op == "" {
 				op = "parse"
@@ -194,15 +199,19 @@ func cmdCost(args []string) int {
 			}
 		}
 		for _, f := range fams {
-			if quadratic[f.Name] {
+			if quadratic[f.Name] || f.CPUN < 0 {
 				continue
 			}
 			op := f.Op
 			if op == "" {
 				op = "parse"
 			}
-			r := costResult{Name: f.Name, Op: op, N: *cpuN, CPUN: *cpuN}
-			for i, k := range []int{*cpuN, 4 * *cpuN} {
+			cn := *cpuN
+			if f.CPUN > 0 {
+				cn = f.CPUN
+			}
+			r := costResult{Name: f.Name, Op: op, N: cn, CPUN: cn}
+			for i, k := range []int{cn, 4 * cn} {
 				s := f.Prefix.ToGo() + strings.Repeat(f.Unit.ToGo(), k) + strings.Repeat(f.Unit2.ToGo(), k) + f.Suffix.ToGo()
 				base := f.Base.ToGo() + strings.Repeat(f.BaseUnit.ToGo(), k)
 				r.CPUMs[i] = cpuOf(op, s, base)
